@@ -135,7 +135,10 @@ Qed.
 
 (** every well-formed line is formatted into a stable line *)
 Theorem norm_wf_stable : forall ts, wf_tokens ts = true -> stable (norm ts) = true.
-Proof. intros ts H. rewrite norm_fw_eq. eapply norm_fw_wf0; exact H. Qed.
+Proof.
+  intros ts H. unfold wf_tokens in H. apply andb_true_iff in H; destruct H as [H _].
+  rewrite norm_fw_eq. eapply norm_fw_wf0; exact H.
+Qed.
 
 (** THE ADJACENCY THEOREMS: the formatter's spacing never merges or splits words ... *)
 Theorem relex_render : forall ts, wf_tokens ts = true -> lex (render ts) = norm ts.
